@@ -425,8 +425,11 @@ class VCRuntime:
             c.check(f"{tag}.init.{nm}", cond, kind="loop-init")
         # havoc
         new = {}
+        itobj = L.get(f"__vc_it{k}")
+        if itobj is not None and hasattr(itobj, "havoc"):
+            itobj.havoc(f"iter@loop{k}")
         for v in linfo["assigned"]:
-            if v in spec.keep or v.startswith("__vc"):
+            if v in spec.keep or (v.startswith("__vc") and not v.startswith("__vc_lc")):
                 continue
             if v in spec.types:
                 new[v] = spec.types[v](f"{v}@loop{k}")
